@@ -64,7 +64,8 @@ ConnClose(c) == /\ S(c).st = "closed" /\ S(c).live
                                                 ELSE (@ \/ bud.aam \/ bud.nconn - 1 < Limit)]
 \* any command (here: reconfigure with the configuration in force) makes the
 \* loop go round
-SCmd == /\ bud.listening /\ bud.scmd < 1
+\* (explored where a server may stop accepting at all)
+SCmd == /\ FALSE \in AAMs /\ bud.listening /\ bud.scmd < 1
         /\ bud' = [bud EXCEPT !.scmd = @ + 1, !.armed = bud.aam \/ bud.nconn < Limit]
         /\ UNCHANGED <<conns, dg>>
 RecvFrame(c) == /\ CanSend(c)
